@@ -397,6 +397,12 @@ def stepA (rule : Bytes → App → Bytes) (s : AState) : AEv → AState
 
 def runA (rule : Bytes → App → Bytes) (s : AState) (evs : List AEv) : AState := evs.foldl (stepA rule) s
 
+/-- api.CreateComment (the handler of POST /board/:bid/article/:aid/comment): the type of the JSON body is
+refused when it is COMMENT_TYPE_UNKNOWN (0; since c4bea08) or above COMMENT_TYPE_BASIC, then bbs.CreateComment /
+ptt.Recommend. -/
+def apiRecommend (find : Bytes → Nat → Bytes → Option Nat) (cfg : Cfg) (st : St) (q : Req) : St × Res :=
+  if q.ctype = 0 ∨ q.ctype > COMMENT_TYPE_BASIC then (st, .params) else recommend find cfg st q
+
 /-- a history of requests on one board (the configuration may change between requests). -/
 def run (find : Bytes → Nat → Bytes → Option Nat) (st : St) : List (Cfg × Req) → St
   | [] => st
